@@ -155,13 +155,16 @@ fn rac_c04_words(lang: &str, src: &str) -> Result<Vec<String>, String> {
     })).map_err(|_| "panicked".to_string())
 }
 fn rac_c04_probe(name: &str, cases: &[(&str, &str, &[&str])]) {
+    // every case is evaluated and ALL failing ones are reported in one line: a known finding is identified by the complete payload
+    let mut failing = vec![];
     for (lang, src, want) in cases {
         let got = rac_c04_words(lang, src);
         let ok = matches!(&got, Ok(g) if g.iter().map(|s| s.as_str()).collect::<Vec<_>>() == want.to_vec());
-        if !ok {
-            println!("RAC-CEX {} {{\"language\": {:?}, \"file\": {:?}, \"prose_words\": {:?}, \"words_seen\": {:?}}}", name, lang, src, want, got);
-            panic!("prose-offset contract violated");
-        }
+        if !ok { failing.push(format!("{{\"language\": {:?}, \"file\": {:?}, \"prose_words\": {:?}, \"words_seen\": {:?}}}", lang, src, want, got)); }
+    }
+    if !failing.is_empty() {
+        println!("RAC-CEX {} [{}]", name, failing.join(", "));
+        panic!("prose-offset contract violated");
     }
     println!("RAC-OK {} cases={} nontrivial={} bound={}-fixed-file(s)", name, cases.len(), cases.len(), cases.len());
 }
